@@ -10,6 +10,48 @@ binding:   (a) CASE lines printed by TLC (class, behaviour, subset of fields, re
                token lengths, arbitrary white space, in-place mutations between dumps) validated by
                spec/TraceMultiValued.tla
 Everything that decides a verdict (expected names, layouts, widths, "dump is total") comes from TLC.
+
+API surface (notes/API_SURFACE.md).  Every public way of performing the operations of the statement is
+chosen per operation by class Api (seed 0 = primary entry points; otherwise a random one), in all three
+legs R = replay of CASE lines, H = replay of histories, T = recorded traces; the verdicts are the same,
+variants are mixed within one case / history (created through one, dumped through another, re-parsed
+through a third; the other live objects of a history go through Api as well).  evidence: api_variants.
+
+  operation         entry point / variant                                             legs
+  ----------------  ----------------------------------------------------------------  --------
+  classes           Dsc, Changes, BuildInfo, Release, PdiffIndex                      R H T
+                    Sources (subclass of Dsc: Sources(text), Sources.iter_paragraphs) R H T (for Dsc cases)
+  parse             cls(str) / cls(bytes)                                             R H T
+                    cls(list of lines without / with newlines, list of bytes lines)   R H T
+                    cls(generator of lines)                                           R H T
+                    cls(text file StringIO) / cls(binary file BytesIO)                R H T
+                    cls(sequence=...) keyword                                         R H T
+                    cls(text, fields) positional / fields= keyword (all fields named) R H T
+                    cls(text, None, None, "utf-8", strict) positional / strict= kw    R H T
+                    cls(bytes, encoding="utf-8")                                      R H T
+                    cls(mapping): Deb822 object / plain dict with RAW TEXT values     R H T
+                    cls(mapping) with RECORD LISTS, cls(obj), obj.copy()              probe (finding C12-copy-structured)
+                    cls.iter_paragraphs(str / bytes / binary file / text file /       R H T (2 paragraphs, the first is used,
+                      list of lines), all-keyword call, use_apt_pkg=False               the count and the class are checked)
+                    iter_paragraphs(use_apt_pkg=True) with python-apt                 out: apt_pkg is not installed here
+                    file NAME as input                                                out: not accepted by the constructors
+                    encoding other than utf-8                                         out: tokens are arbitrary Unicode
+                    GPG-signed input (_gpg_multivalued)                               out: C02's statement (signature stripping)
+  build             obj[f] = [dict, ...] / [Deb822Dict, ...]                          R H T
+                    obj.update({f: recs}) / update(**{f: recs}) / update([(f, recs)]) R H T
+                    obj.setdefault(f, recs)                                           R H T
+                    obj[f].append(rec), obj[f][r]['size'] = s, del obj[f]             H T
+                    obj[f] = "raw text"                                               out: not a record list (today dump() raises
+                                                                                      TypeError; reported as an observation)
+  option            obj.size_field_behavior = v / obj.set_size_field_behavior(v)      R H T (legal and rejected values)
+  same object via   copy.copy / copy.deepcopy / pickle round trip (since 794ff51)     R H T (before a dump, between history steps)
+  dump              obj.dump() / str(obj) / bytes(obj) / obj.__unicode__()            R H T
+                    dump(fd, None, True) / dump(fd=fd, text_mode=True) (text file)    R H T
+                    dump(fd) / dump(fd, "utf-8") / dump(fd=, encoding=, text_mode=)   R H T (binary file)
+                    get_as_string(f) for every structured field                       R H T
+                    dump(text fd) without text_mode                                   out: documented to need text_mode=True
+  not operations of the statement: isSingleLine / isMultiLine / mergeFields (deprecated aliases of
+  helpers that do not touch structured fields), get_gpg_info, the relation / version mixins.
 """
 import json
 import os
@@ -57,6 +99,174 @@ def do_dump(obj):
         return t, "ok"
     except Exception as e:
         return None, "EXC:%s: %s" % (type(e).__name__, e)
+
+
+API_COUNTS = {}      # entry point / variant -> number of uses in this run (evidence: api_variants)
+
+PARSE_VARIANTS = ["str", "lines", "StringIO", "bytes", "BytesIO", "lines_nl", "bytes_lines", "generator",
+                  "kw_sequence", "fields_pos", "fields_kw", "strict_pos", "strict_kw", "encoding_kw",
+                  "mapping_deb822", "mapping_dict",
+                  "iter_str", "iter_bytes", "iter_file", "iter_textfile", "iter_lines", "iter_kw", "subclass", "subclass_iter"]
+BUILD_VARIANTS = ["setitem", "setitem_deb822dict", "update_dict", "update_kw", "update_pairs", "setdefault"]
+DUMP_VARIANTS = ["dump", "str", "bytes", "unicode", "fd_text", "fd_text_kw", "fd_bin", "fd_bin_enc", "fd_kw", "get_as_string"]
+XFORM_VARIANTS = ["none", "none", "none", "copy.copy", "deepcopy", "pickle"]
+_HEAD = re.compile(r"(?m)^([^:\s]+):")
+
+
+class Api:
+    """chooses, per operation, one of the public entry points through which the operation of the
+    statement can be performed (module docstring: API surface).  seed 0 = the primary entry points
+    (cls(str), obj[f] = records, obj.dump()); any other seed = a rotating random choice.  All
+    variants are judged by the same verdicts (the expectation comes from the same abstract case)."""
+
+    def __init__(self, seed):
+        import random
+        self.primary = not seed
+        self.rng = random.Random(seed)
+
+    def pick(self, kind, options):
+        v = options[0] if self.primary else self.rng.choice(options)
+        API_COUNTS["%s:%s" % (kind, v)] = API_COUNTS.get("%s:%s" % (kind, v), 0) + 1
+        return v
+
+    # ---- text -> object
+    def parse(self, cname, beh, text, allow_iter=True):
+        """(obj, None) or (None, message)"""
+        import io
+        import warnings
+        opts = PARSE_VARIANTS if (allow_iter and text.strip()) else PARSE_VARIANTS[:16]
+        if cname != "Dsc":
+            opts = [o for o in opts if not o.startswith("subclass")]
+        v = self.pick("parse", opts)
+        cls = get_class("Sources" if v.startswith("subclass") else cname)
+        two = text + "\nOther-Paragraph: 1\n"
+        try:
+            with warnings.catch_warnings():
+                warnings.simplefilter("ignore")
+                if v in ("str", "subclass"):
+                    o = cls(text)
+                elif v == "lines":
+                    o = cls(text.splitlines())
+                elif v == "StringIO":
+                    o = cls(io.StringIO(text))
+                elif v == "bytes":
+                    o = cls(text.encode("utf-8"))
+                elif v == "BytesIO":
+                    o = cls(io.BytesIO(text.encode("utf-8")))
+                elif v == "lines_nl":
+                    o = cls(text.splitlines(True))
+                elif v == "bytes_lines":
+                    o = cls(text.encode("utf-8").splitlines(True))
+                elif v == "generator":
+                    o = cls(line for line in text.splitlines())
+                elif v == "kw_sequence":
+                    o = cls(sequence=text)
+                elif v == "fields_pos":
+                    o = cls(text, _HEAD.findall(text))
+                elif v == "fields_kw":
+                    o = cls(text, fields=_HEAD.findall(text))
+                elif v == "strict_pos":
+                    o = cls(text, None, None, "utf-8", {"whitespace-separates-paragraphs": False})
+                elif v == "strict_kw":
+                    o = cls(text, strict={"whitespace-separates-paragraphs": True})
+                elif v == "encoding_kw":
+                    o = cls(text.encode("utf-8"), encoding="utf-8")
+                elif v == "mapping_deb822":
+                    o = cls(get_class("Deb822")(text))
+                elif v == "mapping_dict":
+                    o = cls(dict(get_class("Deb822")(text).items()))
+                else:
+                    if v in ("iter_str", "subclass_iter"):
+                        it = cls.iter_paragraphs(two, use_apt_pkg=False) if v == "subclass_iter" else cls.iter_paragraphs(two)
+                    elif v == "iter_bytes":
+                        it = cls.iter_paragraphs(two.encode("utf-8"))
+                    elif v == "iter_file":
+                        it = cls.iter_paragraphs(io.BytesIO(two.encode("utf-8")))
+                    elif v == "iter_textfile":
+                        it = cls.iter_paragraphs(io.StringIO(two))
+                    elif v == "iter_lines":
+                        it = cls.iter_paragraphs(two.splitlines())
+                    else:
+                        it = cls.iter_paragraphs(sequence=two, fields=None, use_apt_pkg=False, encoding="utf-8", strict=None)
+                    ps = list(it)
+                    if len(ps) != 2:
+                        return None, "%s.iter_paragraphs [%s] yielded %d paragraphs for 2" % (cls.__name__, v, len(ps))
+                    o = ps[0]
+                    if type(o) is not cls:
+                        return None, "%s.iter_paragraphs [%s] yielded a %s" % (cls.__name__, v, type(o).__name__)
+            if cname == "Release" and beh not in ("-", "default"):
+                self.setbeh(o, beh)
+            return o, None
+        except Exception as e:
+            return None, "%s [%s] raised %s: %s" % (cls.__name__, v, type(e).__name__, e)
+
+    # ---- records -> field of an object
+    def build(self, obj, name, recs):
+        v = self.pick("build", BUILD_VARIANTS)
+        if v == "setitem":
+            obj[name] = recs
+        elif v == "setitem_deb822dict":
+            from debian.deb822 import Deb822Dict
+            obj[name] = [Deb822Dict(r) for r in recs]
+        elif v == "update_dict":
+            obj.update({name: recs})
+        elif v == "update_kw":
+            obj.update(**{name: recs})
+        elif v == "update_pairs":
+            obj.update([(name, recs)])
+        else:
+            if name in obj:
+                del obj[name]
+            obj.setdefault(name, recs)
+
+    def setbeh(self, obj, v):
+        if self.pick("setbeh", ["property", "set_size_field_behavior"]) == "property":
+            obj.size_field_behavior = v
+        else:
+            obj.set_size_field_behavior(v)
+
+    # ---- object -> the same object through copy / pickle (keeps records and option)
+    def transform(self, obj):
+        import copy
+        import pickle
+        v = self.pick("xform", XFORM_VARIANTS)
+        if v == "copy.copy":
+            return copy.copy(obj)
+        if v == "deepcopy":
+            return copy.deepcopy(obj)
+        if v == "pickle":
+            return pickle.loads(pickle.dumps(obj))
+        return obj
+
+    # ---- object -> text
+    def dump(self, obj, lnames):
+        """(text, "ok") or (None, "EXC:...")"""
+        import io
+        v = self.pick("dump", DUMP_VARIANTS)
+        try:
+            if v == "dump":
+                t = obj.dump()
+            elif v == "str":
+                t = str(obj)
+            elif v == "bytes":
+                t = bytes(obj).decode("utf-8")
+            elif v == "unicode":
+                t = obj.__unicode__()
+            elif v in ("fd_text", "fd_text_kw"):
+                fd = io.StringIO()
+                r = obj.dump(fd, None, True) if v == "fd_text" else obj.dump(fd=fd, text_mode=True)
+                t = fd.getvalue() if r is None else None
+            elif v in ("fd_bin", "fd_bin_enc", "fd_kw"):
+                fd = io.BytesIO()
+                r = obj.dump(fd) if v == "fd_bin" else (obj.dump(fd, "utf-8") if v == "fd_bin_enc" else obj.dump(fd=fd, encoding="utf-8", text_mode=False))
+                t = fd.getvalue().decode("utf-8") if r is None else None
+            else:
+                t = "".join("%s:%s\n" % (k, obj.get_as_string(k)) for k in obj.keys() if k.lower() in lnames)
+            if not isinstance(t, str):
+                return None, "EXC:%s returned %s" % (v, type(t).__name__)
+            return t, "ok"
+        except Exception as e:
+            return None, "EXC:%s [%s]: %s" % (type(e).__name__, v, e)
 
 
 _CELL = re.compile(r"(\s*)(\S+)")
@@ -323,66 +533,73 @@ def check_layout(ctx, case, conc, lay, what):
 
 
 def run_case(ctx, case, conc, variant, tables):
-    """replay one CASE in both directions; returns None or a message (verdict observables only)"""
+    """replay one CASE in both directions; returns None or a message (verdict observables only).
+    Every operation goes through one of its public entry points (Api; variant["api"] = 0: the primary ones)"""
     cname, beh = case["c"], case["b"]
     table = tables[cname]
     lnames = {fld["f"].lower() for fld in table}
-    # ---- direction A: records -> dump() -> parse
+    api = Api(variant.get("api", 0))
+    # ---- direction A: records -> dump -> parse
     if all(fld[2] == "multi" for fld in case["F"]):
-        obj, err = new_obj(cname, beh)
+        obj, err = new_obj(cname, "default")
         if err:
             return "A: " + err
         order = list(case["F"])
         if variant.get("reverse"):
             order.reverse()
         try:
+            if cname == "Release" and not variant.get("beh_late"):
+                api.setbeh(obj, beh)
             if variant.get("extra_first"):
                 k, v = EXTRA[variant["extra_first"] % len(EXTRA)]
                 obj[k] = v
             for fld in order:
                 f, fname, names, lines = fld[0], fld[1], fld[5], fld[6]
                 recs = [dict((names[i], conc[str(f)][str(tid)]) for i, (pad, tid, n) in enumerate(line)) for line in lines]
-                if variant.get("deb822dict"):
-                    from debian.deb822 import Deb822Dict
-                    recs = [Deb822Dict(r) for r in recs]
-                obj[SPELL[variant.get("spell", 0) % 3](fname)] = recs
+                api.build(obj, SPELL[variant.get("spell", 0) % 3](fname), recs)
             if cname == "Release" and variant.get("beh_late"):
-                obj.size_field_behavior = beh
+                api.setbeh(obj, beh)
+            obj = api.transform(obj)
         except Exception as e:
             return "A: building the paragraph raised %s: %s" % (type(e).__name__, e)
-        text, res = do_dump(obj)
+        text, res = api.dump(obj, lnames)
         if res != "ok":
-            return "A: dump() of a paragraph built from records raised %s; model: dump is total (fields present: %s)" % (
+            return "A: dumping a paragraph built from records raised %s; model: dump is total (fields present: %s)" % (
                 res[4:], [fld[1] for fld in case["F"]] or "none")
         m = check_layout(ctx, case, conc, observe_layout(text, lnames), "A dump")
         if m:
             return m
-        obj2, err = new_obj(cname, beh, as_input(text, variant.get("input", 0)))
+        obj2, err = api.parse(cname, beh, text)
         if err:
-            return "A: re-parsing dump(): " + err
+            return "A: re-parsing the dump: " + err
         m = check_records(case, conc, observe_records(obj2, table), "A parse(dump(records))")
         if m:
             return m
-    # ---- direction B: text -> parse -> dump() -> parse
+    # ---- direction B: text -> parse -> dump -> parse
     text = render(case, conc, variant)
-    obj, err = new_obj(cname, beh, as_input(text, variant.get("input", 0)))
+    obj, err = api.parse(cname, beh, text)
     if err:
         return "B: parsing %r: %s" % (text[:200], err)
     m = check_records(case, conc, observe_records(obj, table), "B parse(text)")
     if m:
         return m
-    text2, res = do_dump(obj)
     if case["u"]:
+        api.dump(obj, lnames)
         return None           # unspecified zone (Release/dak + single-line): executed, any outcome accepted
+    try:
+        obj = api.transform(obj)
+    except Exception as e:
+        return "B: copying / pickling the parsed paragraph raised %s: %s" % (type(e).__name__, e)
+    text2, res = api.dump(obj, lnames)
     if res != "ok":
-        return "B: dump() of a parsed paragraph raised %s; model: dump is total (fields present: %s)" % (
+        return "B: dumping a parsed paragraph raised %s; model: dump is total (fields present: %s)" % (
             res[4:], [fld[1] for fld in case["F"]] or "none")
     m = check_layout(ctx, case, conc, observe_layout(text2, lnames), "B dump")
     if m:
         return m
-    obj3, err = new_obj(cname, beh, text2)
+    obj3, err = api.parse(cname, beh, text2)
     if err:
-        return "B: re-parsing dump(): " + err
+        return "B: re-parsing the dump: " + err
     return check_records(case, conc, observe_records(obj3, table), "B parse(dump(parse(text)))")
 
 
@@ -404,19 +621,22 @@ def poison(obj, fname, subs, rng):
 OTHER_RECORDS = [("0cc175b9c0f1b6a831c399e269772661", "5"), ("92eb5ffee6ae2fec3ad71c777531578f", "12345")]
 
 
-def other_step(others, cname, v, tables):
+def other_step(others, cname, v, tables, api=None):
     """a step of ANOTHER live object: create it (with two records in its first structured field) if
     need be, set its size_field_behavior if v says so, dump it; returns None or a message"""
+    api = api or Api(0)
     try:
         o = others.get(cname)
         if o is None:
             o = others[cname] = get_class(cname)()
             fld = tables[cname][1]
-            o[fld["f"]] = [dict(zip(fld["subs"], list(r) + ["other/%d" % i] * (len(fld["subs"]) - 2)))
-                           for i, r in enumerate(OTHER_RECORDS)]
+            api.build(o, fld["f"], [dict(zip(fld["subs"], list(r) + ["other/%d" % i] * (len(fld["subs"]) - 2)))
+                                    for i, r in enumerate(OTHER_RECORDS)])
         if v != "-":
-            o.size_field_behavior = v
-        o.dump()
+            api.setbeh(o, v)
+        t, res = api.dump(o, {f["f"].lower() for f in tables[cname]})
+        if res != "ok":
+            return "other %s object (behaviour %s): dump raised %s" % (cname, v, res[4:])
         return None
     except Exception as e:
         return "other %s object (behaviour %s) raised %s: %s" % (cname, v, type(e).__name__, e)
@@ -436,6 +656,7 @@ def run_history(ctx, case, conc, variant, tables):
     k0 = next(i for i, st in enumerate(H) if st[0] == "dump")
     first = {"c": cname, "b": b0, "F": H[k0][1]}
     tok = lambda f, pair: conc[str(f)][str(pair[0])]
+    api = Api(variant.get("api", 0))
     others = {}
     obj = None
     beh = case["b0"]
@@ -444,24 +665,26 @@ def run_history(ctx, case, conc, variant, tables):
         op = st[0]
         what = "H step %d (%s after %s)" % (k + 1, op, ", ".join(done) or "start")
         if op == "other":
-            m = other_step(others, st[1], st[2], tables)
+            m = other_step(others, st[1], st[2], tables, api)
             if m:
                 return "%s: %s" % (what, m)
             done.append("other %s:=%s" % (st[1], st[2]))
             continue
         if obj is None:          # the object under observation is created now
             if case["o"] == "parsed":
-                obj, err = new_obj(cname, b0, as_input(render(first, conc, variant), variant.get("input", 0)))
+                obj, err = api.parse(cname, b0, render(first, conc, variant))
                 if err:
                     return "H: parsing the start text: " + err
             else:
-                obj, err = new_obj(cname, b0)
+                obj, err = new_obj(cname, "default")
                 if err:
                     return "H: " + err
                 try:
+                    if cname == "Release" and b0 != "default":
+                        api.setbeh(obj, b0)
                     for fld in first["F"]:
                         f, fname, names, lines = fld[0], fld[1], fld[5], fld[6]
-                        obj[fname] = [dict((names[i], conc[str(f)][str(tid)]) for i, (pad, tid, n) in enumerate(line)) for line in lines]
+                        api.build(obj, fname, [dict((names[i], conc[str(f)][str(tid)]) for i, (pad, tid, n) in enumerate(line)) for line in lines])
                 except Exception as e:
                     return "H: building the paragraph raised %s: %s" % (type(e).__name__, e)
         if op == "dump":
@@ -469,24 +692,28 @@ def run_history(ctx, case, conc, variant, tables):
             m = check_records(step, conc, observe_records(obj, table), what + " records of the living object")
             if m:
                 return m
-            text, res = do_dump(obj)
+            text, res = api.dump(obj, lnames)
             if res != "ok":
-                return "%s: dump() raised %s; model: dump is total" % (what, res[4:])
+                return "%s: dump raised %s; model: dump is total" % (what, res[4:])
             m = check_layout(ctx, step, conc, observe_layout(text, lnames), what)
             if m:
                 return m
-            obj2, err = new_obj(cname, "default", text)
+            obj2, err = api.parse(cname, "default", text)
             if err:
-                return "%s: re-parsing dump(): %s" % (what, err)
+                return "%s: re-parsing the dump: %s" % (what, err)
             m = check_records(step, conc, observe_records(obj2, table), what + " parse(dump())")
             if m:
                 return m
             done.append("dump")
+            try:
+                obj = api.transform(obj)      # the same object through copy.copy / deepcopy / pickle, or itself
+            except Exception as e:
+                return "%s: copying / pickling the paragraph raised %s: %s" % (what, type(e).__name__, e)
             continue
         if op == "setbehfails":
             bad = ILLEGAL_BEHAVIORS[variant.get("illegal", 0) % len(ILLEGAL_BEHAVIORS)]
             try:
-                obj.size_field_behavior = bad
+                api.setbeh(obj, bad)
             except Exception:
                 pass                     # rejected, as the model says: the option must be what it was
             else:
@@ -501,7 +728,8 @@ def run_history(ctx, case, conc, variant, tables):
             continue
         try:
             if op == "setbeh":
-                obj.size_field_behavior = beh = st[1]
+                beh = st[1]
+                api.setbeh(obj, beh)
                 done.append("size_field_behavior:=%s" % beh)
                 continue
             f = st[1]
@@ -514,7 +742,7 @@ def run_history(ctx, case, conc, variant, tables):
             elif op == "setsize":
                 obj[fname][st[2] - 1]["size"] = tok(f, st[3])
             elif op == "assign":
-                obj[fname] = [dict(zip(subs, [tok(f, p) for p in rec])) for rec in st[2]]
+                api.build(obj, fname, [dict(zip(subs, [tok(f, p) for p in rec])) for rec in st[2]])
             elif op == "delete":
                 del obj[fname]
             else:
@@ -527,10 +755,67 @@ def run_history(ctx, case, conc, variant, tables):
     return None
 
 
+FINDING_COPY = "C12-copy-structured"
+
+
+def copy_probe(ctx, case, conc, tables, rng):
+    """secondary ways of making the same paragraph: obj.copy(), cls(obj), cls({field: records}).
+    Expected: a paragraph with the same records that dumps to the same text.  On the tree this check was
+    built on all three raise AttributeError ('list' object has no attribute 'splitlines') as soon as a
+    structured field is present, while copy.copy(obj) works: a divergence between entry points, reported
+    to the lead as finding C12-copy-structured (open in known_findings.json: KNOWN-FINDING; listed as
+    fixed: a recurrence is a violation; not listed: recorded as spec_drift + evidence, not an alarm)."""
+    cname, beh = case["c"], case["b"]
+    table = tables[cname]
+    lnames = {fld["f"].lower() for fld in table}
+    obj, err = new_obj(cname, beh)
+    if err:
+        return
+    recs_by_name = {}
+    for fld in case["F"]:
+        f, fname, names, lines = fld[0], fld[1], fld[5], fld[6]
+        recs_by_name[fname] = [dict((names[i], conc[str(f)][str(tid)]) for i, (pad, tid, n) in enumerate(line)) for line in lines]
+        obj[fname] = recs_by_name[fname]
+    base, res = do_dump(obj)
+    if res != "ok":
+        return
+    how = rng.choice(["obj.copy()", "cls(obj)", "cls({field: records})"])
+    API_COUNTS["probe:" + how] = API_COUNTS.get("probe:" + how, 0) + 1
+    try:
+        if how == "obj.copy()":
+            c = obj.copy()
+        elif how == "cls(obj)":
+            c = get_class(cname)(obj)
+        else:
+            c = get_class(cname)(recs_by_name)
+        if cname == "Release":
+            c.size_field_behavior = beh
+        msg = check_records(case, conc, observe_records(c, table), how)
+        if not msg:
+            t, res = do_dump(c)
+            msg = ("%s: dump raised %s" % (how, res[4:])) if res != "ok" else check_layout(ctx, case, conc, observe_layout(t, lnames), how + " dump")
+    except Exception as e:
+        msg = "%s raised %s: %s" % (how, type(e).__name__, e)
+    if not msg:
+        return
+    known = "AttributeError" in msg and "splitlines" in msg
+    entry = [x for x in ctx.findings() if x["id"] == FINDING_COPY]
+    if known and entry and entry[0]["status"] == "open":
+        ctx.known_hit(FINDING_COPY)
+    elif known and not entry:
+        n = ctx.extra.setdefault("unregistered_findings", {}).setdefault(FINDING_COPY, {"count": 0, "example": None})
+        n["count"] += 1
+        if n["example"] is None:
+            n["example"] = "%s with %s present: %s" % (cname, [fld[1] for fld in case["F"]], msg)
+            ctx.drift("FINDING (not registered in known_findings.json) %s: %s" % (FINDING_COPY, n["example"]))
+    else:
+        ctx.violation({"kind": "copyprobe", "case": case, "conc": conc, "tables": tables, "how": how}, msg)
+
+
 def make_variant(rng, c):
     if c == 0:
-        return {"illegal": rng.randrange(6)}
-    return {"illegal": rng.randrange(6), "poison": rng.randrange(1, 1000) if rng.random() < 0.5 else 0, "spell": rng.randrange(3), "input": rng.randrange(5), "reverse": rng.random() < 0.5,
+        return {"illegal": rng.randrange(6), "api": 0}
+    return {"api": rng.randrange(1, 10 ** 9), "illegal": rng.randrange(6), "poison": rng.randrange(1, 1000) if rng.random() < 0.5 else 0, "spell": rng.randrange(3), "input": rng.randrange(5), "reverse": rng.random() < 0.5,
             "deb822dict": rng.random() < 0.5, "beh_late": rng.random() < 0.5,
             "extra_first": rng.randrange(5) if rng.random() < 0.5 else 0,
             "extra_last": rng.randrange(5) if rng.random() < 0.3 else 0}
@@ -601,6 +886,7 @@ def gen_recipe(rng, tables, big=0):
     return {"cls": cname, "beh": beh, "dir": direction, "fields": fields, "order": order,
             "spell": rng.randrange(3), "input": rng.randrange(5), "again": rng.random() < 0.3,
             "extra": rng.randrange(5) if rng.random() < 0.4 else 0,
+            "api": rng.randrange(1, 10 ** 9) if rng.random() < 0.8 else 0,
             "muts": gen_mutations(rng, table, fields, cname)}
 
 
@@ -704,8 +990,14 @@ def execute(recipe, tables):
     single_present = any(x["form"] == "single" for x in recipe["fields"])
     others = {}
     spell = SPELL[recipe["spell"]]
+    api = Api(recipe.get("api", 0))
     if recipe["dir"] == "build":
-        obj, err = new_obj(cname, beh)
+        obj, err = new_obj(cname, "default")
+        if not err and cname == "Release" and beh != "default":
+            try:
+                api.setbeh(obj, beh)
+            except Exception as e:
+                err = "setting size_field_behavior raised %s" % type(e).__name__
         if err:
             events.append({"op": "error", "what": err})
             return tr
@@ -715,7 +1007,7 @@ def execute(recipe, tables):
             x = recipe["fields"][j]
             subs = table[x["f"] - 1]["subs"]
             try:
-                obj[spell(table[x["f"] - 1]["f"])] = [dict(zip(subs, rec)) for rec in x["recs"]]
+                api.build(obj, spell(table[x["f"] - 1]["f"]), [dict(zip(subs, rec)) for rec in x["recs"]])
             except Exception as e:
                 events.append({"op": "error", "what": "assignment raised %s" % type(e).__name__})
                 return tr
@@ -746,7 +1038,7 @@ def execute(recipe, tables):
                           "lines": [[dict(pool.tok(t), pad=p) for t, p in zip(rec, pads)] for rec, pads in zip(x["recs"], x["pads"])]})
         text = "".join(parts)
         tr["text"] = text
-        obj, err = new_obj(cname, beh, as_input(text, recipe["input"]))
+        obj, err = api.parse(cname, beh, text)
         if err:
             events.append({"op": "error", "what": err})
             return tr
@@ -756,20 +1048,27 @@ def execute(recipe, tables):
     # the living object `obj` is dumped; every dump is parsed back into a FRESH object; "load"
     # continues with that fresh object, a mutation changes the living one
     def dump_parse(obj, unspec):
-        text, res = do_dump(obj)
+        text, res = api.dump(obj, lnames)
         if unspec:
             tr["unspecified_dump"] = res
             return None           # executed; not logged: any outcome is accepted
         if res != "ok":
-            events.append({"op": "dump", "res": res.split(":")[1], "fields": []})
+            events.append({"op": "dump", "res": res.split(":")[1].split(" ")[0], "fields": []})
             return None
         events.append({"op": "dump", "res": "ok", "fields": ev_layout(observe_layout(text, lnames), table, pool)})
-        fresh, err = new_obj(cname, cur_beh, text)
+        fresh, err = api.parse(cname, cur_beh, text)
         if err:
             events.append({"op": "error", "what": err})
             return None
         events.append({"op": "parse", "fields": ev_records(observe_records(fresh, table), pool)})
         return fresh
+
+    def xform(obj):
+        try:
+            return api.transform(obj)     # the same object through copy.copy / deepcopy / pickle, or itself
+        except Exception as e:
+            events.append({"op": "error", "what": "copying / pickling raised %s: %s" % (type(e).__name__, e)})
+            return None
 
     fresh = dump_parse(obj, unspecified)
     if fresh is None:
@@ -781,15 +1080,18 @@ def execute(recipe, tables):
         if fresh is None:
             return tr
     for mu in recipe.get("muts", []):
+        obj = xform(obj)
+        if obj is None:
+            return tr
         if mu["op"] == "other":
-            m = other_step(others, mu["c"], mu["v"], tables)
+            m = other_step(others, mu["c"], mu["v"], tables, api)
             if m:
                 events.append({"op": "error", "what": m})
                 return tr
             events.append({"op": "other", "c": mu["c"], "v": mu["v"]})
         elif mu["op"] == "setbehfails":
             try:
-                obj.size_field_behavior = ILLEGAL_BEHAVIORS[mu["i"]]
+                api.setbeh(obj, ILLEGAL_BEHAVIORS[mu["i"]])
             except Exception:
                 events.append({"op": "setbehfails"})
             else:
@@ -797,7 +1099,8 @@ def execute(recipe, tables):
                 return tr            # accepted: unspecified, nothing more is logged
         elif mu["op"] == "setbeh":
             try:
-                obj.size_field_behavior = cur_beh = mu["v"]
+                cur_beh = mu["v"]
+                api.setbeh(obj, cur_beh)
             except Exception as e:
                 events.append({"op": "error", "what": "setting size_field_behavior raised %s: %s" % (type(e).__name__, e)})
                 return tr
@@ -819,7 +1122,7 @@ def execute(recipe, tables):
                 obj[fname][mu["r"] - 1]["size"] = mu["tok"]
                 events.append({"op": "setsize", "f": f, "r": mu["r"], "tok": pool.tok(mu["tok"])})
             elif mu["op"] == "assign":
-                obj[fname] = [dict(zip(subs, rec)) for rec in mu["recs"]]
+                api.build(obj, fname, [dict(zip(subs, rec)) for rec in mu["recs"]])
                 events.append({"op": "assign", "f": f, "form": "multi",
                                "recs": [[pool.tok(t) for t in rec] for rec in mu["recs"]]})
             else:
@@ -1058,6 +1361,12 @@ def run(ctx):
     ctx.extra["cases_per_mode"] = stats["per_mode"]
     ctx.extra["cases_per_class"] = stats["per_class"]
     ctx.extra["cases_replayed"] = stats["n"]
+    ctx.extra["api_variants"] = dict(sorted(API_COUNTS.items()))
+    expected = (["parse:" + v for v in PARSE_VARIANTS] + ["build:" + v for v in BUILD_VARIANTS] + ["dump:" + v for v in DUMP_VARIANTS]
+                + ["xform:" + v for v in XFORM_VARIANTS] + ["setbeh:property", "setbeh:set_size_field_behavior"])
+    missing = [v for v in expected if not API_COUNTS.get(v)]
+    if missing:
+        raise core.MachineryError("API variants never exercised in this run: %s" % missing)
     ctx.extra["cases_size_stressed"] = {"n": stats.get("stressed", 0), "with_1000_records": stats.get("thousand", 0)}
     ctx.extra["model"] = {"cfgs": [cfg_s, cfg_p], "EmitOff": emit_off,
                           "states": r_small.distinct + r_pdiff.distinct, "generated": r_small.generated + r_pdiff.generated,
@@ -1085,6 +1394,10 @@ def run(ctx):
         ctx.violation({"kind": "trace", "recipe": recipes[i - 1], "trace": t, "first_unexplained_event": at + 1},
                       "recorded life cycle of %s%s not explained by MultiValued: event %d %s (after %d accepted events)"
                       % (t["cls"], "" if t["beh"] == "-" else "/" + t["beh"], at + 1, describe_event(t, ev), at))
+
+
+def multi_all(case):
+    return all(fld[2] == "multi" for fld in case["F"])
 
 
 def must_hold(r):
@@ -1116,6 +1429,8 @@ def replay_cases(ctx, r, tables, nconc, stats):
             if msg:
                 ctx.violation({"kind": "case", "case": case, "conc": conc, "variant": variant, "tables": tables}, msg)
                 break
+        if not case.get("H") and multi_all(case) and case["F"] and idx % 25 == 7 and len(ctx.violations) < 3:
+            copy_probe(ctx, case, concretize(rng, case, False), tables, rng)
         # size stress: the same abstract case with many records / long tokens / boundary numbers
         multi = [fld for fld in case["F"] if fld[2] == "multi"]
         if not case.get("H") and multi and not case["u"] and idx % every == every // 2 and len(ctx.violations) < 3:
@@ -1159,6 +1474,11 @@ def replay(ctx, case):
     if case["kind"] == "case":
         fn = run_history if case["case"].get("H") else run_case
         return fn(ctx, case["case"], case["conc"], case["variant"], case["tables"])
+    if case["kind"] == "copyprobe":
+        import random
+        before = len(ctx.violations)
+        copy_probe(ctx, case["case"], case["conc"], case["tables"], random.Random(0))
+        return ctx.violations[-1][1] if len(ctx.violations) > before else None
     if case["kind"] == "trace":
         tables = tables_from_tlc(ctx)
         new = execute(case["recipe"], tables)
